@@ -207,6 +207,24 @@ Proof.
     try (apply N.eqb_eq in En; subst n'); try (apply N.eqb_eq in Et; subst t'); reflexivity.
 Qed.
 
+(* NOT PROVED for whole schemas (kept visible):
+     schema_patch_roundtrip : NoDup (map c_id sa) -> NoDup (map c_id sb) ->
+       (kept columns of sb in the order of sa, added columns after them) ->
+       apply_ddls sa (schema_patch sa sb) = sb
+   and patch_roundtrip with rows re-aligned to the new schema.  Proved: the per-column statement above
+   (col_ddl_roundtrip), the statement counts (ddl_counts_spec) and the instances below; the executed
+   round trip (rows + SHOW CREATE TABLE) checks the whole-schema statement on every generated case. *)
+Definition sch0 : tschema :=
+  [{| c_id := 1; c_name := 1; c_ty := 1 |}; {| c_id := 2; c_name := 2; c_ty := 3 |}; {| c_id := 3; c_name := 3; c_ty := 4 |}].
+Example ex_schema_renmod :
+  let sb := [{| c_id := 1; c_name := 6; c_ty := 2 |}; {| c_id := 2; c_name := 2; c_ty := 3 |}; {| c_id := 3; c_name := 3; c_ty := 4 |}] in
+  schema_patch sch0 sb = [DRename 1 6; DModify 1 2] /\ apply_ddls sch0 (schema_patch sch0 sb) = sb.
+Proof. split; reflexivity. Qed.
+Example ex_schema_add_drop :
+  let sb := [{| c_id := 2; c_name := 2; c_ty := 3 |}; {| c_id := 3; c_name := 3; c_ty := 4 |}; {| c_id := 5; c_name := 5; c_ty := 1 |}] in
+  apply_ddls sch0 (schema_patch sch0 sb) = sb.
+Proof. reflexivity. Qed.
+
 Definition is_add (d : ddl) : N := match d with DAdd _ => 1 | _ => 0 end.
 Definition is_drop (d : ddl) : N := match d with DDrop _ => 1 | _ => 0 end.
 Definition is_ren (d : ddl) : N := match d with DRename _ _ => 1 | _ => 0 end.
